@@ -32,6 +32,24 @@ func extractAll(f *facts, v1, v2 *pkg, repo string) {
 	for _, fn := range []string{"Provision", "getBlob", "CreatePartitions", "LeasePartition"} {
 		shapeFact(f, "v2_shape_lm_"+fn, v2, "azure-blob-lease-manager.go", "azureBlobLeaseManager", fn)
 	}
+	// SharedResource / eventer: same skeleton, with the full text of every return and assignment
+	for _, fn := range []string{"Provision", "MaxCapacity", "Capacity", "calc", "GiveMe", "getAllocatedAndRandomUnallocatedPartition",
+		"setPartitionId", "clearPartitionId", "Start", "Stop"} {
+		shapeFactX(f, "v1_shape_sr_"+fn, v1, "azure-shared-resource.go", "AzureSharedResource", fn, true)
+	}
+	for _, fn := range []string{"MaxCapacity", "Capacity", "GiveMe", "Provision", "Start", "Stop"} {
+		shapeFactX(f, "v1_shape_sr_provisioned_"+fn, v1, "provisioned-resource.go", "ProvisionedResource", fn, true)
+	}
+	for _, fn := range []string{"MaxCapacity", "Capacity", "SetSharedCapacity", "SetReservedCapacity", "calc", "GiveMe", "scheduleProvision",
+		"getAllocatedAndRandomUnallocatedPartition", "setPartitionId", "clearPartitionId", "provisionBlobs", "loop", "Start", "shutdown"} {
+		shapeFactX(f, "v2_shape_sr_"+fn, v2, "shared-resource.go", "sharedResource", fn, true)
+	}
+	for _, fn := range []string{"AddListener", "RemoveListener", "emit"} {
+		shapeFactX(f, "v1_shape_ev_"+fn, v1, "eventer.go", "eventer", fn, true)
+	}
+	for _, fn := range []string{"AddListener", "RemoveListener", "Emit"} {
+		shapeFactX(f, "v2_shape_ev_"+fn, v2, "eventer.go", "EventerBase", fn, true)
+	}
 	sdkCodesFact(f)
 	defaultsFact(f, "v1", v1, "Batcher")
 	defaultsFact(f, "v2", v2, "batcher")
@@ -42,6 +60,10 @@ func extractAll(f *facts, v1, v2 *pkg, repo string) {
 // plus the names of the functions it calls. A change of a comparison operator, a dropped branch, a reordered
 // check or a dropped call changes the list.
 func shapeFact(f *facts, name string, p *pkg, file, recv, fn string) {
+	shapeFactX(f, name, p, file, recv, fn, false)
+}
+
+func shapeFactX(f *facts, name string, p *pkg, file, recv, fn string, full bool) {
 	fd := p.fn(file, recv, fn)
 	if fd == nil || fd.Body == nil {
 		f.strList(name, []string{"<missing>"})
@@ -88,13 +110,21 @@ func shapeFact(f *facts, name string, p *pkg, file, recv, fn string) {
 		case *ast.DeferStmt:
 			out = append(out, "defer")
 		case *ast.ReturnStmt:
-			out = append(out, "return")
+			if full {
+				out = append(out, oneLine(p.str(n)))
+			} else {
+				out = append(out, "return")
+			}
 		case *ast.BranchStmt:
 			out = append(out, n.Tok.String()+" "+labelOf(n))
 		case *ast.IncDecStmt:
 			out = append(out, p.str(n.X)+n.Tok.String())
 		case *ast.AssignStmt:
-			out = append(out, oneLine(p.str(n.Lhs[0]))+" "+n.Tok.String())
+			if full {
+				out = append(out, oneLine(p.str(n)))
+			} else {
+				out = append(out, oneLine(p.str(n.Lhs[0]))+" "+n.Tok.String())
+			}
 		}
 		return true
 	})
